@@ -233,6 +233,55 @@ def h_two(who, state, kind):
     return ['two', out]
 
 
+def h_two_sas():
+    """TWO IKE_SAs in one process (a gateway with two peers): each responder answers a request with the same Message ID (exchange kinds: arbitrary pair);
+    then the first request is retransmitted: its IKE_SA answers with ITS OWN stored response, byte for byte, and executes nothing again; the retransmission
+    of an older request is ignored"""
+    from symx import core
+    eng = core.engine()
+    ik = MODS['ikesa'].IkeSa
+    S = ik.State
+    kinds = ('dpd', 'new_child', 'rekey_child', 'del_child')
+    pick = lambda name: kinds[(lambda c: eng.concretize(c, 0, len(kinds) - 1) if not isinstance(c, int) else c)(eng.sym_int(name, 0, len(kinds) - 1))]
+    k1, k2 = pick('kind_first'), pick('kind_second')
+    p1 = world.Pair()
+    p1.establish()
+    env1 = (world.ENV.now,)
+    p2 = world.Pair(env_setup=lambda env: env.reset(seed=b'second peer'))
+    p2.establish()
+    if bytes(p1.a.my_spi) == bytes(p2.a.my_spi):
+        return ['n/a', 'identical twins']
+
+    def trigger(p, kind):
+        a = p.a
+        with p.A:
+            if kind == 'dpd':
+                world.ENV.now = a.start_dpd_at + 3600
+                return a.check_dead_peer_detection_timer()
+            if kind == 'new_child':
+                return a.process_acquire(*p.acquire_tss(), 1)
+            return a.process_expire(a.child_sas[0].inbound_spi, kind == 'del_child')
+    req1 = trigger(p1, k1)
+    n1 = len(p1.B.kernel.log)
+    res1 = p1.send('B', req1)
+    n1b = len(p1.B.kernel.log)
+    req2 = trigger(p2, k2)
+    res2 = p2.send('B', req2)
+    if res1 is None or res2 is None:
+        return {'class': ['two_sas'], 'violation': f'a genuine {k1} / {k2} request was not answered'}
+    state1, kids1, mid1 = p1.b.state, list(p1.b.child_sas), p1.b.peer_msg_id
+    again = p1.send('B', req1)
+    if again is None:
+        return {'class': ['two_sas'], 'violation': f'after another IKE_SA of the process answered a {k2} request with the same Message ID, the retransmission of a {k1} request '
+                                                   f'gets no answer'}
+    if bytes(again) != bytes(res1):
+        return {'class': ['two_sas'], 'violation': f'after another IKE_SA of the process answered a {k2} request with the same Message ID, the retransmission of a {k1} request '
+                                                   f'is answered with other bytes than the stored response of its own IKE_SA'}
+    if len(p1.B.kernel.log) != n1b or p1.b.state != state1 or p1.b.peer_msg_id != mid1 or [id(x) for x in p1.b.child_sas] != [id(x) for x in kids1]:
+        return {'class': ['two_sas'], 'violation': 'the retransmitted request was executed again'}
+    return ['two_sas', k1, k2]
+
+
 def h_trigger(who, state, trig):
     """local triggers while a request is outstanding: nothing is emitted, the event is queued (acquire/expire)"""
     from symx import core
@@ -368,7 +417,8 @@ KINDS = ('response', 'dpd', 'del_child', 'rekey_child', 'new_child', 'rekey_ike'
 
 
 def build_instances(tier):
-    inst = []
+    inst = [Instance('two IKE_SAs of one process answer the same Message ID', h_two_sas, (), native=common.native_of(h_two_sas), engine_kw={'max_ticks': 10 ** 7},
+                     must_reach=[('ok', lambda o: o[0] == 'two_sas')])]
     nat = common.native_of
     for who, states in (('A', world.ALL_STATES_A), ('B', world.ALL_STATES_B)):
         for st in states:
